@@ -259,5 +259,7 @@ def cargo_parse(cargo_ver: str) -> T.Callable[[str], bool]:
         return True
 
     if not out:
-        return lambda v: True
+        # No comparator at all (``*`` or empty): any version, but still no
+        # pre-release, as none was named.
+        return lambda v: not SemVer(v).has_prerelease
     return compare
